@@ -89,6 +89,20 @@ def spec_graphs(case):
     return H, J
 
 
+def prepare_graph(case, G, lab):
+    """attach the node / edge weight attributes the specification refers to (harness-side set-up, idempotent)"""
+    li = {lab(i): i for i in range(case["n"])}
+    for u in G:
+        G.nodes[u]["nw"] = float(F(case["nodew"][li[u]]))
+    ew = {}
+    for (u, v), w in zip(case["edges"], case["edgew"]):
+        G.edges[lab(u), lab(v)]["ew"] = float(F(w))
+        ew[(u, v)] = float(F(w))
+        if not case.get("directed"):
+            ew[(v, u)] = float(F(w))
+    return ew
+
+
 def call(case, G, lab, tr, full):
     import EoN
     li = {lab(i): i for i in range(case["n"])}
@@ -96,14 +110,7 @@ def call(case, G, lab, tr, full):
     kw = dict(tmin=float(F(case["tmin"])), tmax=float(F(case["tmax"])), return_full_data=full)
     if case["sim"] == "Gillespie_simple_contagion":
         H, J = spec_graphs(case)
-        for u in G:
-            G.nodes[u]["nw"] = float(F(case["nodew"][li[u]]))
-        ew = {}
-        for (u, v), w in zip(case["edges"], case["edgew"]):
-            G.edges[lab(u), lab(v)]["ew"] = float(F(w))
-            ew[(u, v)] = float(F(w))
-            if not case.get("directed"):
-                ew[(v, u)] = float(F(w))
+        ew = prepare_graph(case, G, lab)
         for a, b, r, mode in case["spont"]:
             if mode == "label":
                 H.edges[a, b]["weight_label"] = "nw"
